@@ -334,8 +334,11 @@ HopToM(from, j, hk, rem) ==
 DyFinal(fin) ==
   CASE fin.k = "frag" -> [dynamicRef |-> LocalRef(FragName("n"))]
     [] fin.k = "ptr"  -> [dynamicRef |-> LocalRef(FragPtr(<<SegN("defs", "t")>>))]
-    [] fin.k = "res"  -> [dynamicRef |-> ResRef(fin.j, FragName("n")), not |-> [const |-> Num(Mark[fin.j + 1])]]
-DyFinals == {[k |-> "frag"], [k |-> "ptr"]} \cup {[k |-> "res", j |-> j] : j \in 0..K}
+    [] fin.k = "res"  -> [dynamicRef |-> ResRef(fin.j, FragName("n"))]
+    \* (the sibling excludes the mark of the LEXICAL target: this variant tells "bound elsewhere, sibling applied" from
+    \* "bound elsewhere, sibling skipped"; the plain variant tells the fall-back to the lexical target from a failure)
+    [] fin.k = "resSib" -> [dynamicRef |-> ResRef(fin.j, FragName("n")), not |-> [const |-> Num(Mark[fin.j + 1])]]
+DyFinals == {[k |-> "frag"], [k |-> "ptr"], [k |-> "resSib", j |-> 1]} \cup {[k |-> "res", j |-> j] : j \in 0..K}
 \* chains: sequences of distinct resources of length 1..K
 DyChains == {c \in UNION {[1..n -> 1..K] : n \in 1..K} : \A i, j \in DOMAIN c : i # j => c[i] # c[j]}
 \* what resource i does after being entered
@@ -408,7 +411,7 @@ FkBody(i, hk, fin) ==
     [] OTHER -> <<>>
 FkRes(i, kinds, hk, fin, withId) ==
   (IF withId THEN [id |-> IdOf(RelRef(<<RN[i]>>))] ELSE <<>>) @@ [defs |-> [t |-> TNode(kinds[i + 1], i)]] @@ FkBody(i, hk, fin)
-FkFinals == {[k |-> "frag"], [k |-> "ptr"]} \cup {[k |-> "res", j |-> j] : j \in 0..4}
+FkFinals == {[k |-> "frag"], [k |-> "ptr"], [k |-> "resSib", j |-> 4]} \cup {[k |-> "res", j |-> j] : j \in 0..4}
 FkEmbedded(kinds, hk, fin) ==
   [docs |-> <<[uri |-> DyRootURI,
                s |-> [defs |-> [t |-> TNode(kinds[1], 0)] @@ [i \in {RN[j] : j \in 1..4} |->
